@@ -48,8 +48,28 @@ def comprehension_probe(ctx, key):
                     "C18: the simplified AST of a query with a comprehension cannot be compiled", key=key)
 
 
+def substitution_family(rng, n):
+    """an argument that needs parentheses in some positions (conditional, and/or, comparison, arithmetic, not, lambda) substituted
+    into SEVERAL positions of different binding strength: the text of the result must be the text of the tree (ast.unparse
+    keeps its parenthesisation state per node object)"""
+    out = []
+    for _ in range(n):
+        v = rng.choice(["e", "x", "j"])
+        arg = rng.choice([f"({v}.met if {v}.run > 1 else 3)", f"({v}.met or {v}.run)", f"({v}.met < {v}.run)", f"({v}.met + 2)", f"(not {v}.met)",
+                          f"({v}.met if {v}.run else ({v}.run if {v}.met else 1))", f"({v}.met and {v}.run or 7)", f"(-{v}.met)", f"({v}.met ** 2)"])
+        w = rng.choice(["w", "q", "a"])
+        body = rng.choice([f"(3 if {w} else 4) < {w}", f"({w} if {w} > 1 else 2) + {w}", f"[{w}, 0][0] * {w}", f"({w} or 1) and {w}",
+                           f"-({w}) - {w}", f"({w}, 1)[0] < {w}", f"{{'k': {w}}}['k'] + {w} * 2", f"(2 if ({w} < 3) else {w}) ** {w}",
+                           f"({w} if {w} else {w}) if {w} else {w}", f"not ({w} if 1 else 2) == {w}", f"({w} < {w}) < ({w} if {w} else 0) < {w}",
+                           f"(lambda k: k + {w})(({w} if 0 else 1)) * {w}"])
+        out.append(rng.choice([f"Select(ds, lambda {v}: (lambda {w}: {body})({arg}))", f"Where(ds, lambda {v}: (lambda {w}: {body})({arg}) > 0)",
+                               f"Select(ds, lambda {v}: (lambda {w}, z: {body})({arg}, z=1))"]))
+    return out
+
+
 def run(ctx):
     comprehension_probe(ctx, "C18-comprehension-target-load-context")
+    simplify.check_queries(ctx, substitution_family(ctx.rng, ctx.n(80, 2000)), "c18-substitution")
     n = ctx.n(1000, 50000)
     done = 0
     while done < n:
